@@ -91,7 +91,7 @@ PoolSets ==
                                                               ab \in BOOLEAN, ax \in AllAxes \ {SetToSeq(AllAxes)[i]}, nt \in TestsA}]
       [] Family = "C13wrapPred" -> <<PoolC13wrapPred(Atoms1({"child", "ancestor", "following", "preceding-sibling"}, {NTName("a")}))>>
       [] Family = "C09two"  -> PoolC09twoSets
-      [] Family = "C09one"  -> <<PoolC09one>>
+      [] Family = "C09one"  -> <<PoolC09one, PoolC09ws>>
       [] Family = "C09sub"  -> <<PoolC09sub>>
       [] Family = "C09nest" -> <<PoolC09nest>>
 
